@@ -24,6 +24,9 @@ from hexital.indicators import INDICATOR_MAP
 from oracles import gen
 
 PROP = "C07"
+# utils/ lines executed on behalf of CandleManager (collapse_candles re-processing the whole candle list on every append)
+# are reported as their own group; set to False to judge the work done on behalf of indicators only
+REPORT_MANAGER_WORK = True
 ROOT = os.path.dirname(os.path.abspath(hexital.__file__))
 TARGET_FILES = (os.path.join(ROOT, "core", "indicator.py"),)
 TARGET_DIRS = tuple(os.path.join(ROOT, d) + os.sep for d in ("indicators", "analysis", "utils"))
@@ -185,7 +188,7 @@ def compare(col, label, make, candles, n_small, n_large, inp):
             return None  # building or the append itself raised: other properties' subject
         runs.append(res)
     (t_p, p_p, _), (t_s, p_s, _), (t_l, p_l, _) = runs
-    for bucket in ("indicator", "manager"):
+    for bucket in ("indicator", "manager") if REPORT_MANAGER_WORK else ("indicator",):
         c_p, c_s, c_l = t_p[bucket], t_s[bucket], t_l[bucket]
         base = max(c_p, c_s)
         allowed = 0.05 * base + 20
